@@ -189,9 +189,13 @@ pub(crate) mod v_socket_tcp {
         };
         // T0: the Close timer runs exactly in TIME-WAIT
         kani::assume(matches!(s.timer, Timer::Close { .. }) == (state == State::TimeWait));
-        // T3: a pending fast retransmission with data in flight never coexists with an idle timer AND a closed
-        // peer window (the timer is restarted when the fast retransmit fires; a window update to zero arms the probe)
-        kani::assume(!(s.pending_fast_retransmit && inflight > 0 && s.timer.is_idle() && s.remote_win_len == 0));
+        // T1: sequence space in flight always has a retransmission, fast-retransmission or probe timer
+        // (dispatch arms the retransmission timer with every segment that occupies sequence space; the fixes
+        // recorded in known_findings.json keep it armed across timeouts, fast retransmits and window probes)
+        kani::assume(inflight == 0 || matches!(s.timer, Timer::Retransmit { .. } | Timer::FastRetransmit | Timer::ZeroWindowProbe { .. }));
+        // T2: queued data against a closed peer window always has a running timer (probe or retransmission):
+        // process() and send() arm the probe when the timer is idle, dispatch() falls back to probing after a timeout
+        kani::assume(!(txlen > 0 && s.remote_win_len == 0 && s.timer.is_idle()));
         let rto: u32 = kani::any();
         kani::assume(rto >= RTTE_MIN_RTO && rto <= RTTE_MAX_RTO);
         s.rtte.rto = rto;
@@ -434,7 +438,8 @@ pub(crate) mod v_socket_tcp {
             }
             crate::vassert!(s.remote_mss >= 48, "inv:S2_mss_floor");
             crate::vassert!(matches!(s.timer, Timer::Close { .. }) == (s.state == State::TimeWait), "inv:T0_close_timer_iff_time_wait");
-            crate::vassert!(!(s.pending_fast_retransmit && fl > 0 && s.timer.is_idle() && s.remote_win_len == 0), "inv:T3_pending_fast_retransmit_has_timer_or_open_window");
+            crate::vassert!(!(!s.tx_buffer.is_empty() && s.remote_win_len == 0 && s.timer.is_idle()), "inv:T2_queued_data_against_closed_window_has_timer");
+            crate::vassert!(fl == 0 || matches!(s.timer, Timer::Retransmit { .. } | Timer::FastRetransmit | Timer::ZeroWindowProbe { .. }), "inv:T1_sequence_space_in_flight_has_timer");
             crate::vassert!(s.rtte.rto >= RTTE_MIN_RTO && s.rtte.rto <= RTTE_MAX_RTO && s.rtte.rto_count < 3, "inv:T0_rto_bounds");
             if let Some(a) = s.remote_last_ack {
                 let nxt = sadd(s.remote_seq_no, s.rx_buffer.len());
